@@ -9,6 +9,11 @@ package main
 //         trust:    A   every peer lists every other peer as trusted
 //                   T   trust_all
 //                   O<u> peer u is trusted by nobody (it trusts everybody)
+//                   RA | RB | RT  relay topology (n3 only): peers 0 - 1 - 2 in a chain, peer 2 refuses any
+//                        connection with peer 0 (connection gater), peer 1 only relays (it issues nothing and
+//                        does not rebroadcast); peers 0 and 1 trust everybody; peer 2 trusts only peer 0 (RA),
+//                        only peer 1 (RB), everybody (RT). What peer 2 must hold is decided by who SIGNED an
+//                        update, not by who forwarded it.
 //         batching: N | Z1 (size 1, age 1h) | S<size> (age 60ms)
 // script: phases separated by '|', operations inside a phase by ';':
 //         <r>P<pin token> | <r>U<cid>     (inside a phase a CID is written by one replica only)
@@ -37,8 +42,9 @@ import (
 
 type netCfg struct {
 	n       int
-	trust   byte // A T O
+	trust   byte // A T O R
 	outcast int
+	relay   byte // A B T (with trust R)
 	batch   string
 }
 
@@ -55,6 +61,11 @@ func parseNetCfg(s string) (netCfg, bool) {
 	switch {
 	case f[1] == "A" || f[1] == "T":
 		c.trust = f[1][0]
+	case f[1] == "RA" || f[1] == "RB" || f[1] == "RT":
+		if n != 3 {
+			return netCfg{}, false
+		}
+		c.trust, c.relay = 'R', f[1][1]
 	case strings.HasPrefix(f[1], "O"):
 		u, err := strconv.Atoi(f[1][1:])
 		if err != nil || u < 0 || u >= n {
@@ -124,6 +135,12 @@ func (c netCfg) listens(i, j int) bool {
 	if i == j {
 		return true
 	}
+	if c.trust == 'R' {
+		if i != 2 {
+			return true
+		}
+		return c.relay == 'T' || (c.relay == 'A' && j == 0) || (c.relay == 'B' && j == 1)
+	}
 	return c.trust != 'O' || j != c.outcast
 }
 
@@ -148,6 +165,14 @@ func netAttempt(c netCfg, phases [][]netOp, vt *valTable, tag string) (line stri
 			pc.maxSize, _ = strconv.Atoi(c.batch[1:])
 			pc.maxAge = shortAge
 		}
+		if c.trust == 'R' {
+			if i == 1 {
+				pc.rebcast = time.Hour // a pure relay: nothing is ever announced under its own signature
+			}
+			if i == 2 {
+				pc.blocked = []int{0}
+			}
+		}
 		switch c.trust {
 		case 'T':
 			pc.trustAll = true
@@ -167,6 +192,9 @@ func netAttempt(c netCfg, phases [][]netOp, vt *valTable, tag string) (line stri
 	ctx := context.Background()
 	for i := 0; i < c.n; i++ {
 		for j := i + 1; j < c.n; j++ {
+			if c.trust == 'R' && i == 0 && j == 2 {
+				continue
+			}
 			peers[i].h.Peerstore().AddAddrs(peers[j].h.ID(), peers[j].h.Addrs(), peerstore.PermanentAddrTTL)
 			dctx, cancel := context.WithTimeout(ctx, 10*time.Second)
 			_, err := peers[i].h.Network().DialPeer(dctx, peers[j].h.ID())
@@ -177,6 +205,9 @@ func netAttempt(c netCfg, phases [][]netOp, vt *valTable, tag string) (line stri
 		}
 	}
 	time.Sleep(400 * time.Millisecond) // gossipsub mesh
+	if c.trust == 'R' {
+		time.Sleep(1100 * time.Millisecond) // the relay forwards to its mesh only: one heartbeat
+	}
 
 	heard := make([][]accOp, c.n)
 	ok = true
@@ -212,6 +243,9 @@ func netAttempt(c netCfg, phases [][]netOp, vt *valTable, tag string) (line stri
 			res = append(res, submit(o))
 		}
 		for r := 0; r < c.n; r++ {
+			if c.trust == 'R' && r == 1 {
+				continue
+			}
 			sp := sentinelPin(pi, r)
 			o := netOp{rep: r, isPin: true, pin: sp, cid: common.CidIndex(sp.Cid, common.PinUniverse)}
 			sent = append(sent, fmt.Sprintf("%d:%d.%d%s", r, o.cid, vt.val(sp), submit(o)))
@@ -225,7 +259,7 @@ func netAttempt(c netCfg, phases [][]netOp, vt *valTable, tag string) (line stri
 				ok = false
 			}
 		}
-		if c.trust == 'O' {
+		if c.trust == 'O' || c.trust == 'R' {
 			// give what must NOT arrive the time to arrive
 			time.Sleep(1600 * time.Millisecond)
 		} else {
@@ -240,6 +274,9 @@ func netAttempt(c netCfg, phases [][]netOp, vt *valTable, tag string) (line stri
 		}
 		outs = append(outs, strings.Join(part, "#"))
 	}
+	if c.trust == 'R' && len(peers[2].h.Network().ConnsToPeer(peers[0].h.ID())) > 0 {
+		return "", false, fmt.Errorf("relay topology broken: peer 2 is connected to peer 0")
+	}
 	return strings.Join(outs, "|"), ok, nil
 }
 
@@ -250,6 +287,15 @@ func runNet(emit func(string), cfgTok, script string) {
 		return
 	}
 	phases, okp := parseNetScript(script, c.n)
+	if okp && c.trust == 'R' {
+		for _, ph := range phases {
+			for _, o := range ph {
+				if o.rep == 1 {
+					okp = false // the relay issues nothing
+				}
+			}
+		}
+	}
 	if !okp || len(phases) > 10 {
 		emit("# malformed net case: script")
 		return
@@ -294,7 +340,35 @@ func runNet(emit func(string), cfgTok, script string) {
 	emit(fmt.Sprintf("C02 net %s %s => vals=%s ph=%s", cfgTok, script, v, last))
 }
 
+// relay cases: peer 0 pins / unpins / pins again, peer 2 (behind the relay) sometimes writes its own CIDs
+func genRelayScript(r *common.Rng) (string, string) {
+	trust := []string{"RA", "RB", "RT", "RA"}[r.Intn(4)]
+	batch := []string{"N", "Z1", "S99", "S2"}[r.Intn(4)]
+	nph := r.Range(1, 2)
+	var phs []string
+	for p := 0; p < nph; p++ {
+		var ops []string
+		c := r.Intn(3)
+		ops = append(ops, fmt.Sprintf("0P%s", randPinTok(r, c)), fmt.Sprintf("0U%d", c), fmt.Sprintf("0P%s", randPinTok(r, c)))
+		for i := r.Intn(3); i > 0; i-- {
+			if r.Chance(1, 2) {
+				ops = append(ops, fmt.Sprintf("0P%s", randPinTok(r, r.Intn(3))))
+			} else {
+				ops = append(ops, fmt.Sprintf("2P%s", randPinTok(r, 6+r.Intn(2))))
+			}
+		}
+		if r.Chance(1, 3) {
+			ops = append(ops, fmt.Sprintf("0U%d", r.Intn(3)))
+		}
+		phs = append(phs, strings.Join(ops, ";"))
+	}
+	return fmt.Sprintf("n3/%s/%s", trust, batch), strings.Join(phs, "|")
+}
+
 func genNetScript(r *common.Rng) (string, string) {
+	if r.Chance(1, 4) {
+		return genRelayScript(r)
+	}
 	n := 2 + r.Intn(2)
 	trust := []string{"A", "A", "T", "O"}[r.Intn(4)]
 	outcast := -1
